@@ -87,6 +87,21 @@ def families(tier):
                                 params=dict(edges=edges, entry=entry),
                                 scn=dict(buses={b: {} for b in names}, order=order, handlers=hs, main=[('disp', entry, 'P', 'ff')], actors=[], forwards=real,
                                          fwd_first=fwd_first, settle=3.0)))
+    # a chain of nested dispatches 4-5 levels deep (a different event type and handler at every level, nothing recurses), every level
+    # passing through a bus that forwards to the next one: forwarding must work at any nesting depth
+    for mode, topo, depth in itertools.product(('ff', 'await'), ('AB', 'ABC', 'AB_BA'), (4, 5)):
+        edges = {'AB': [('A', 'B')], 'ABC': [('A', 'B'), ('B', 'C')], 'AB_BA': [('A', 'B'), ('B', 'A')]}[topo]
+        ns = names if topo == 'ABC' else ['A', 'B']
+        chain = ['P', 'C', 'G', 'Q', 'Z'][:depth]
+        hs = []
+        for i, t in enumerate(chain):
+            prog = ([('disp', 'A', chain[i + 1], mode)] if i + 1 < len(chain) else []) + [('ret', t)]
+            hs.append(dict(bus='A', pat=t, name='h' + t, prog=prog))
+            for b in ns[1:]:
+                hs.append(dict(bus=b, pat=t, name=f'probe{t}{b}', prog=[('ret', b)]))
+        for order in (ns, ns[::-1]):
+            out.append(dict(prop='C07', family='c07.nested_chain', id=f'c07/nest-{mode}-{topo}-d{depth}-o{"".join(order)}', cfg=cfg2, params=dict(edges=edges, entry='A', chain=chain),
+                            scn=dict(buses={b: {} for b in ns}, order=order, handlers=hs, main=[('disp', 'A', 'P', 'ff')], actors=[], forwards=edges, settle=3.0)))
     if deep:
         n4 = ['A', 'B', 'C', 'D']
         offdiag = [(i, j) for i in range(4) for j in range(4) if i != j]
@@ -110,6 +125,17 @@ def oracle(spec, res):
         return out
     edges = spec['params']['edges']
     fin = res['final']['events']
+    if 'chain' in spec['params']:
+        reach = _reach('A', edges)
+        for ev, fe in fin.items():
+            seen = {en[2] for en in tr.enters if en[4] == ev}
+            if seen != reach or set(fe['path']) != reach or len(fe['path']) != len(set(fe['path'])):
+                out.append(V('nested_event_not_forwarded_to_every_reachable_bus', f'{ev}: handled on {sorted(seen)}, path {fe["path"]}, reachable {sorted(reach)}; results {[(r["bus"], r["h"], r["status"], r["errtype"]) for r in fe["results"]]}'))
+            if fe['status'] != 'completed' or not fe['sig']:
+                out.append(V('event_not_complete_at_quiescence', f'{ev}: {fe["status"]} sig={fe["sig"]}'))
+        if len(fin) != len(spec['params']['chain']):
+            out.append(V('nested_chain_incomplete', f'events {sorted(fin)} expected chain {spec["params"]["chain"]}'))
+        return out[:6]
     for ev, fe in fin.items():
         if not ev.startswith('P'):
             continue
